@@ -130,6 +130,39 @@ EXPECTED = {
 }
 
 
+def partfiles_parse(P, repo, rep):
+    """A shipped part-definition file can only say anything if the tool can read it: every line of every includes/*.inc must be matched
+    by the grammar's line() (decided with the grammar matcher of analysis/peg.py, nothing runs)."""
+    import grammar
+    import layout_match
+    import peg
+    g, problems = grammar.load_checked(P)
+    for pr in problems:
+        rep.unprovable("C12.partfile|grammar-cross-check", pr)
+    layout_match.use_conditions(P)
+    seen = {}
+    nfiles = nlines = 0
+    for f in sorted(glob.glob(os.path.join(repo, "includes", "*.inc"))):
+        try:
+            text = open(f, encoding="latin-1").read()
+        except OSError:
+            continue
+        nfiles += 1
+        bad = []
+        for i, line in enumerate(text.splitlines()):
+            nlines += 1
+            if line not in seen:
+                seen[line] = peg.full_match(g, "line", line, layout_match._COND[0]) is not None
+            if not seen[line]:
+                bad.append((i + 1, line))
+        rep.ob("C12.partfile|parses|%s" % os.path.basename(f), not bad,
+               "every line of %s is a line of the grammar" % os.path.basename(f) if not bad else
+               "%s cannot be included: line %d `%s` is not matched by line() (%d such lines)" % (os.path.basename(f), bad[0][0], bad[0][1].strip()[:80], len(bad)),
+               detail={"lines": bad[:5]}, nontrivial=False)
+    rep.floor("shipped include files matched against the grammar", nfiles, 60)
+    rep.floor("their lines", nlines, 45000)
+
+
 def run(tier):
     rep = Reporter("C12", tier, "proof", "table evaluation from MIR vs. vendor part files; normalised path facts of the limit check (abstract interpretation)")
     rep.explanation = ("The device table is read out of the MIR of its initialiser and compared row by row with every shipped part-definition file; "
@@ -171,6 +204,8 @@ def run(tier):
     rep.count("vendor files naming a table row", matched)
     rep.count("vendor files naming no table row (information)", len(missing))
     rep.floor("vendor files matched to rows", matched, 45)
+
+    partfiles_parse(P, facts.repo, rep)
 
     # ---- limit check
     key = "builder::build_from_parsed"
